@@ -75,7 +75,8 @@ def tool_part(run):
     d = os.path.join(run.wd, "files")
     os.makedirs(d, exist_ok=True)
     lines, obs = [], []
-    for n in ([0, 1, 5, 9, 12, 13, 40] if not run.thorough else range(0, 41)):
+    variants = [(n, via) for n in ([0, 1, 5, 9, 12, 13, 40] if not run.thorough else range(0, 41)) for via in ("file", "stdin")]
+    for n, via in variants:
         bed = os.path.join(d, "n%d.bed" % n)
         with open(bed, "w") as f:
             for i in range(3):
@@ -83,7 +84,10 @@ def tool_part(run):
         sizes = os.path.join(d, "n.sizes")
         open(sizes, "w").write("chrAa\t100\n")
         bb = os.path.join(d, "n%d.bb" % n)
-        rc, _, err = cf.run_tool(tdir, "own", "bedtobigbed", [bed, sizes, bb, "-t", "1"])
+        if via == "stdin":
+            rc, _, err = cf.run_tool(tdir, "own", "bedtobigbed", ["-", sizes, bb, "-t", "1"], stdin=open(bed, "rb").read())
+        else:
+            rc, _, err = cf.run_tool(tdir, "own", "bedtobigbed", [bed, sizes, bb, "-t", "1"])
         rc2, out, err2 = cf.run_tool(tdir, "own", "bigbedinfo", [bb, "--autosql"]) if rc == 0 else (1, "", "")
         rc3, info, _ = cf.run_tool(tdir, "own", "bigbedinfo", [bb]) if rc == 0 else (1, "", "")
         fc = -1
@@ -99,16 +103,16 @@ def tool_part(run):
                 q = not q
             elif ch == ";" and not q:
                 sem += 1
-        o = {"kind": "bed", "counts": [], "hfc": 3 + n, "n": n,
+        o = {"kind": "bed", "counts": [], "hfc": 3 + n, "n": n, "via": via,
              "obs": {"result": "ok" if rc == 0 and rc2 == 0 else "writeerr", "ans": {"result": "accept", "counts": [sem]}, "storedFields": sem, "verbatim": 1, "headerCount": fc}}
         obs.append(o)
         lines.append(json.dumps(o, separators=(",", ":")))
-        run.count_case("tool n=%d" % n, True)
+        run.count_case("tool n=%d %s" % (n, via), True)
     bad = validate_obs("Obs_AutoSql", "Obs.cfg", lines, run.wd, "tool", shards=1)
     run.cov["traces_validated_against_impl"] += len(obs)
     for i, tag in bad:
         o = obs[i]
-        run.violation("C19 bedtobigbed without --autosql, %d extra columns: %s -> %s" % (o["n"], tag, json.dumps(o["obs"])),
+        run.violation("C19 bedtobigbed without --autosql (input via %s), %d extra columns: %s -> %s" % (o["via"], o["n"], tag, json.dumps(o["obs"])),
                       {"kind": "autosql-tool", "tag": tag, "n": o["n"], "obs": o["obs"]})
 
 
